@@ -928,7 +928,21 @@ class Executor:
             n = z3ify(it.hi) - z3ify(it.lo)
             n = z3.simplify(z3.If(n > 0, n, 0))
             it = Seq(n, z3.Lambda([_LK], _LK + z3ify(it.lo)), "int", "range")
-        if isinstance(it, Seq) and not g.ifs:
+        if isinstance(it, Seq) and g.ifs:
+            # a filter that is true for every (symbolic) element can be dropped
+            kf = z3.Int(fresh_name("kf"))
+            saved_f = dict(st.locals)
+            try:
+                self.assign_target(g.target, it.get(kf), st, fr)
+                conds = [to_bool(self.ev(c, st, fr)) for c in g.ifs]
+            finally:
+                for kk in list(st.locals):
+                    if kk not in saved_f:
+                        del st.locals[kk]
+                st.locals.update(saved_f)
+            if not all(c is True for c in conds):
+                raise Undecided("filtered comprehension over a symbolic sequence")
+        if isinstance(it, Seq):
             k = z3.Int(fresh_name("k"))
             saved = dict(st.locals)
             try:
@@ -945,12 +959,16 @@ class Executor:
                     if kk not in saved:
                         del st.locals[kk]
                 st.locals.update(saved)
+            wrap_out = None
+            if hasattr(e, "term") and it.wrap is not None:
+                wrap_out, e = it.wrap, e.term        # a comprehension that passes wrapped records through
             if not self.scalar(e):
                 raise Undecided("comprehension element is not scalar")
             e = z3ify(e)
             tname = "int" if e.sort() == z3.IntSort() else "real" if e.sort() == z3.RealSort() else \
                 "bool" if e.sort() == z3.BoolSort() else e.sort().name()
             out = Seq.new(tname, "comp", it.len)
+            out.wrap = wrap_out
             st.assume(z3.ForAll([k], z3.Implies(z3.And(k >= 0, k < z3ify(it.len)), z3.Select(out.arr, k) == e)))
             return out
         raise Undecided(f"comprehension over {type(it).__name__}")
